@@ -83,6 +83,19 @@ def forbidden_scan():
     return hits
 
 
+def coqchk(pid):
+    """thorough tier: re-check the compiled property file and everything it depends on with the
+    independent checker; returns (ok, axioms it reports, tail of its summary)"""
+    r = sh("timeout 2400 coqchk -silent -o -Q . Hgm Hgm.Properties.%s" % pid, cwd=COQ, timeout=2500)
+    out = r.stdout + r.stderr
+    m = re.search(r"\* Axioms:(.*?)\n\s*\n\* Constants", out, re.S)
+    axioms = [] if m is None else [l.strip() for l in m.group(1).splitlines() if l.strip() and l.strip() != "<none>"]
+    clean = all(("* %s: <none>" % k) in out.replace("\n  ", " ") or re.search(r"\* %s:\s*<none>" % re.escape(k), out)
+                for k in ("Constants/Inductives relying on type-in-type", "Constants/Inductives relying on unsafe (co)fixpoints",
+                          "Inductives whose positivity is assumed"))
+    return r.returncode == 0 and clean, axioms, out[-1200:]
+
+
 def proof_step(pid):
     """compile Properties/<pid>.v, collect theorem names and Print Assumptions output"""
     t0 = time.time()
